@@ -423,6 +423,11 @@ class Builder:
         if g == "seconds_of_day":
             ms = rng.choice([0, 86399999, rng.randint(0, 86399999), rng.randint(0, 86399999), 86400000, 86400750])  # the last two: a stamp inside a leap second
             digits = rng.randint(3, 6)
+            if rng.random() < 0.4 and ms < 86399999:
+                # the field is a decimal number of seconds: digits below the millisecond are part of the stored instant
+                us = ms * 1000 + rng.choice([1, 250, 456, 500, 999, rng.randint(1, 999)])
+                text = rng.choice([f"{us / 10**6:.6f}", f"{us / 10**6:.15E}"])[:n]
+                return text, float(text)
             text = f"{ms / 1000:.{digits}f}"
             return text, float(text)
         if g == "float":
@@ -508,8 +513,28 @@ def build_image(layouts, required, rng, level, pol, scan, n_lines, n_pixels, pro
         "geographic_reference_parameter_update_flag": rng.randint(0, 2**32 - 1),
     }
     enum_consts = {}
+    # line numbers: what real files carry (1..N, or consecutive from some first value) and the legal oddities — numbered bottom-up,
+    # a contiguous run in shuffled order, restarting per burst, or arbitrary values
+    mode = rng.choice(["ascending-from-1", "ascending", "descending", "shuffled-run", "burst-restart", "arbitrary", "arbitrary"])
+    first = rng.randint(1, 2**31)
+    if mode == "ascending-from-1":
+        numbers = list(range(1, n_lines + 1))
+    elif mode == "ascending":
+        numbers = list(range(first, first + n_lines))
+    elif mode == "descending":
+        numbers = list(range(first + n_lines - 1, first - 1, -1))
+    elif mode == "shuffled-run":
+        numbers = list(range(first, first + n_lines))
+        rng.shuffle(numbers)
+    elif mode == "burst-restart":
+        burst = rng.randint(1, max(1, n_lines // 2))
+        numbers = [1 + (i % burst) for i in range(n_lines)]
+    else:
+        numbers = None
     for i in range(n_lines):
         lo = {"preamble.record_type": rec_type, "preamble.record_length": L}
+        if numbers is not None:
+            lo["sar_image_data_line_number"] = numbers[i]
         if not (vary_constants and i > 0):
             # `vary_constants`: the "per-file constant" columns (update flags, scan id, codes ...) differ on later lines, as update
             # flags raised on the first line only do in real files; the documented attribute is the value of the FIRST line
